@@ -143,6 +143,14 @@ def m_arc_clone(ex, st, callee, args, dest_ty):
     yield st, deref_once(ex, st, args[0])
 
 
+def m_arc_ptr_eq(ex, st, callee, args, dest_ty):
+    """Arc::ptr_eq(&a, &b): the two Arcs share one allocation (the Arc value is a Ref to the shared cell)"""
+    a, b = deref_once(ex, st, args[0]), deref_once(ex, st, args[1])
+    if not (isinstance(a, Ref) and isinstance(b, Ref)):
+        raise MirUnsupported("Arc::ptr_eq on %r / %r" % (a, b))
+    yield st, mk_bool(a.cell == b.cell and tuple(a.projs) == tuple(b.projs))
+
+
 def deref_once(ex, st, r):
     return ex.read(st, r.cell, r.projs)
 
@@ -259,6 +267,7 @@ MODELS = [
     (re.compile(r"^(std::collections::hash_map::)?(Occupied|Vacant)Entry::<.*>::key$"), m_entry_key),
     (re.compile(r"^Arc::<.*>::new$"), m_arc_new),
     (re.compile(r"^<Arc<.*> as Clone>::clone$"), m_arc_clone),
+    (re.compile(r"^Arc::<.*>::ptr_eq$"), m_arc_ptr_eq),
     (re.compile(r"^<Arc<.*> as Deref>::deref$"), m_arc_deref),
     (re.compile(r"^Definitions::namespace$"), m_def_ns),
     (re.compile(r"^<Definitions as NamedElement>::name$"), m_def_name),
